@@ -1,6 +1,6 @@
 import FlytModel.Generated.IR
 import FlytModel.Expected.IR
-/-! The translation of `CustomNode_Prep` from the CURRENT source is, term for term, the IR the refinement theorems are about. -/
+/-! The translation of `CustomNode_Prep` from the CURRENT source is, term for term, the expected IR. -/
 namespace Flyt.Tie
 theorem CustomNode_Prep : Flyt.Generated.IR.CustomNode_Prep = Flyt.Expected.IR.CustomNode_Prep := rfl
 end Flyt.Tie
